@@ -53,6 +53,9 @@ pub enum VerifEvent
     Finish{ id: u64, sys: Entity, reinserted: bool },
     Exit{ id: u64, sys: Entity },
     Discard{ id: u64, sys: Entity },
+    /// `garbage_collect_entities` was entered / is about to return.
+    GcBegin,
+    GcEnd,
     /// `garbage_collect_entities` received an entity.
     Gc{ entity: Entity, existed: bool },
     PollBegin,
@@ -178,6 +181,15 @@ pub fn verif_registrations_of(world: &mut World, sys: SystemCommand) -> usize
     let mut q = world.query::<&EntityReactors>();
     let on_entities: usize = q.iter(world).map(|r| r.iter_reactors().filter(|s| *s == sys).count()).sum();
     in_cache + on_entities
+}
+
+/// Lists all system command entities.
+pub fn verif_system_commands(world: &mut World) -> Vec<Entity>
+{
+    let mut q = world.query_filtered::<Entity, With<SystemCommandStorage>>();
+    let mut all: Vec<Entity> = q.iter(world).collect();
+    all.sort();
+    all
 }
 
 /// Returns `true` if `entity` carries local data of the entity world reactor `T`.
